@@ -130,6 +130,7 @@ inline auto observed(F step)
 
 } // namespace c02
 
+#ifndef C02_GUARD_NO_DEFS
 // ---- allocator-level hook (weak symbol of libasan/libsanitizer, called for every allocation)
 extern "C" void __sanitizer_malloc_hook(const volatile void*, std::size_t) { c02::note_alloc(); }
 
@@ -159,3 +160,4 @@ void operator delete[](void* p, std::size_t, std::align_val_t) noexcept { std::f
 void operator delete(void* p, std::nothrow_t const&) noexcept { std::free(p); }
 void operator delete[](void* p, std::nothrow_t const&) noexcept { std::free(p); }
 #endif
+#endif // C02_GUARD_NO_DEFS
